@@ -58,15 +58,22 @@ def tryLoad (reg : Registry) (f : SrcFile) : Except Reject Registry :=
 theorem foldlM_addTop_ok (stmts : List Stmt) (reg r : Registry) (h : stmts.foldlM addTop reg = .ok r) :
     stmts.foldlM (fun r s => r.add s) reg = .ok r := by
   induction stmts generalizing reg with
-  | nil => exact h
+  | nil => rw [List.foldlM_nil] at h ⊢; cases h; rfl
   | cons s rest ih =>
-    simp only [List.foldlM_cons, bind, Except.bind] at h ⊢
-    unfold addTop at h
-    split at h
-    · cases hs : reg.add s with
-      | ok r' => simp only [hs] at h ⊢; exact ih r' h
-      | error e => simp only [hs] at h; cases h
-    · cases h
+    rw [List.foldlM_cons] at h ⊢
+    cases hs : addTop reg s with
+    | error e => rw [hs] at h; simp only [bind, Except.bind] at h; cases h
+    | ok r' =>
+      rw [hs] at h
+      have ha : reg.add s = .ok r' := by
+        unfold addTop at hs
+        split at hs
+        · cases ha : reg.add s with
+          | ok x => rw [ha] at hs; cases hs; rfl
+          | error e => rw [ha] at hs; cases hs
+        · cases hs
+      rw [ha]
+      exact ih r' h
 
 /-- An accepted text is loaded exactly as `Goyang.Model.loadFile` (Pipeline.lean, what the resolver
 driver `drv_res` uses) loads it. -/
